@@ -36,6 +36,7 @@ EXTENDS Integers, Sequences, FiniteSets, TLC, Json
 
 CONSTANTS Tabs,      \* tables whose rows are enumerated: subset of AllTabs
           MaxSteps,  \* longest chain
+          MaxLines,  \* longest file
           Devs, Gen
 
 VARIABLE in
@@ -196,7 +197,7 @@ DocChain(steps, v) ==
 (* of line kinds; keys and values are plain strings here.                  *)
 (***************************************************************************)
 LineKinds == {"kv", "kv2", "ws", "other", "comment", "empty", "blank", "nocolon", "novalue", "nokey",
-              "icomment", "colonval"}
+              "icomment", "colonval", "crlf", "emptyval"}
 \* [skip, err, k, vs]
 LineSem(kind, devs) ==
   CASE kind = "kv"       -> [skip |-> FALSE, err |-> FALSE, k |-> "a", vs |-> <<"b">>]             \* a: b
@@ -212,7 +213,9 @@ LineSem(kind, devs) ==
     [] kind = "icomment" -> IF "IndentedCommentIsKey" \in devs                                      \* "\t# a: x"
                             THEN [skip |-> FALSE, err |-> FALSE, k |-> "# a", vs |-> <<"x">>]
                             ELSE [skip |-> TRUE, err |-> FALSE, k |-> "", vs |-> <<>>]
-    [] kind = "colonval" -> [skip |-> FALSE, err |-> FALSE, k |-> "d", vs |-> <<"g:h">>]           \* d: g:h
+    [] kind = "colonval" -> [skip |-> FALSE, err |-> FALSE, k |-> "d", vs |-> <<"g:h">>]           \* d: g:h  (from the code)
+    [] kind = "crlf"     -> [skip |-> FALSE, err |-> FALSE, k |-> "d", vs |-> <<"i">>]             \* d: i<CR>
+    [] kind = "emptyval" -> [skip |-> FALSE, err |-> FALSE, k |-> "d", vs |-> <<"j", "", "k">>]    \* d: j,,k (from the code)
 FileKeys == {"a", "d", "# a"}
 RECURSIVE FileVals(_, _, _)
 FileVals(lines, key, devs) ==
@@ -223,7 +226,9 @@ FileAnswer(i, devs) ==
   IF \E j \in 1..Len(i.lines) : LineSem(i.lines[j], devs).err THEN InitErr     \* "No changes are applied if file contains syntax errors"
   ELSE LET vs == FileVals(i.lines, i.key, devs) IN
        [init |-> "ok", hasMulti |-> TRUE, multi |-> vs, val |-> IF vs = <<>> THEN "" ELSE vs[1], ok |-> vs # <<>>]
-InFile == {[tab |-> "file", lines |-> l, key |-> k] : l \in SeqsUpTo(LineKinds, 3), k \in FileKeys}
+\* nonl: the last line has no line terminator
+InFile == {[tab |-> "file", lines |-> l, key |-> k, nonl |-> n] :
+             l \in SeqsUpTo(LineKinds, MaxLines), k \in FileKeys, n \in BOOLEAN}
 
 (***************************************************************************)
 (* Rule, RuleD, Viol                                                       *)
